@@ -151,6 +151,9 @@ def run_propagate(case):
             pd["weights"] = jnp.array(weights[idx])
             pd["overlaps"] = trial.calc_overlap(w, wd)
             pd["pop_control_ene_shift"] = jnp.array(0.2)
+            # the new shift is e_estimate - 0.1 log(mean weight) / dt: pin the estimate (init_prop_data measures it from the population in
+            # whatever precision the trial's energy has, float32 for the hand-coded CI kinds) so that only the weights enter the comparison
+            pd["e_estimate"] = jnp.array(-0.7)
             tw = prop._apply_trotprop(hd, w, jnp.array(fields[idx]))
             out = prop.propagate(trial, hd, pd, jnp.array(fields[idx]), wd)
             return (afqmc.np_walkers(tw), afqmc.np_walkers(out["walkers"]), np.asarray(out["weights"]), np.asarray(out["overlaps"]),
